@@ -9,23 +9,28 @@ from props import C11 as R
 
 NEED_RG = True
 MANIFEST = dict(
-    text="Coq (over Spec/RegexSem.v, unbounded, induction on the HIR): line_locality_partial (a span inside the content "
-         "of an LF-terminated line is a match in the whole buffer iff it is one in the stripped line — proved for HIRs "
-         "whose look-around is LF line anchors or ASCII word assertions), path_selection_safe (whenever "
-         "Core::is_line_by_line_fast holds for the RegexMatcher model, passthru is off and no match in the buffer "
-         "contains the searcher's terminator byte), strip_invisible_on_content, without_terminator_fixed_crlf (lines.rs "
-         "after the D9 repair), candidate_sound_for_lines (C11-4); refuted with witnesses: slow_test_old_crlf_refuted "
-         "(D9, repaired), line_locality_crlf_refuted (D1, repaired), line_locality_unicode_refuted (new finding D17, "
-         "known). The event-level fast_eq_slow / slow_reports_iff over the Core model are the coordinator's "
-         "SearcherCore theorems (abstract matcher) and are NOT proved here: tested only. Tie to the code: end-to-end "
-         "oracle — (1-3 patterns, flags from -i -S -s -w -x -F --crlf --null-data -v, several -e, input bytes with "
-         "invalid UTF-8, bare CR, empty lines, missing final terminator) through real `rg -n --no-heading`, the library "
-         "searcher (slice, fragmented reader, passthru = slow path) and a reference: the documented meaning of each flag "
-         "applied through regex-syntax directly (independent of config.rs), evaluated per stripped line by the "
-         "extracted Coq semantics.",
-    note="partial: look-around locality for Unicode word boundaries (false in general: D17) and CRLF anchors is not "
-         "proved; the composition with the Core model (fast_eq_slow) is left to Model/SearcherCore.v's theorems with the "
-         "matcher contract as hypothesis; regex-syntax translation and regex-automata trusted (differentially tested)",
+    text="Coq, unbounded: c01_lines_reported_iff_content_matches — for every final HIR with local look-around (LF line "
+         "anchors, ASCII word assertions) that build_many accepts with the \\n terminator advertised, every input and every "
+         "searcher configuration without binary detection, the run of SliceByLine::run (fast or slow path, whichever "
+         "is_line_by_line_fast selects) equals the grep reference whose line test is 'the final HIR has a match in the "
+         "line's content', i.e. a line is delivered as a match iff its content matches xor invert (composition of "
+         "Props/C03.v slice_eq_ref_from_candidate_contract with regex_matcher_meets_candidate_contract: the RegexMatcher "
+         "model — is_match by the HIR semantics, find_candidate_line = leftmost fast-line literal (Candidate) or the "
+         "engine's span (Confirmed) — obeys the candidate contract, proved from line_locality_partial, C11's "
+         "build_line_terminator_promise and candidate_never_skips). Hypotheses kept explicit: span_ok (the regex "
+         "engine reports a leftmost match; regex-automata's search is not modelled; satisfiable: span_ok_satisfiable) and "
+         "'fast-line literals contain no \\n' (checked by the C11 oracle every run). Also line_locality_partial, "
+         "path_selection_safe, strip_invisible_on_content, without_terminator_fixed_crlf; refuted with witnesses: D9, D1 "
+         "(repaired), D17 (known). NOT covered by the theorem (tested only): Unicode word boundaries incl. -w in Unicode "
+         "mode (false in general: D17), CRLF and NUL terminators, the reader (roll-buffer) strategy. Tie to the code: "
+         "end-to-end oracle — patterns (grammar, counted repetitions, case pairs), flags -i -S -s -w -x -F --crlf "
+         "--null-data -v, several -e/-f, inputs with invalid UTF-8, bare CR, empty lines, missing final terminator — "
+         "through real rg, the library searcher (slice, fragmented reader, passthru) and a reference built with "
+         "regex-syntax directly and evaluated per stripped line by the extracted Coq semantics; the literal-search model "
+         "(find_lit) is compared with find_candidate_line in C11.",
+    note="partial: the full-strength theorem needs local_looks (excludes Unicode \\b/\\B/-w, CRLF anchors) and the LF "
+         "terminator; span_ok and literal cleanliness are hypotheses; regex-syntax translation and regex-automata trusted "
+         "(differentially tested)",
     technique="Coq proof over executable semantics + end-to-end differential oracle (rg, library, reference HIR)",
     design="§7 C01, A.3, §8 D1 D9")
 KNOWN_D17 = "UnicodeLookBehindAcrossLineStart"
